@@ -66,9 +66,11 @@ func caseList(quick bool) ([]segment, int) {
 			segment{Kind: "api", Net: n, Count: q(48, 2400)},
 			segment{Kind: "wire-stream", Net: n, Count: q(24, 300)},
 			segment{Kind: "findcontent-stored", Net: n, Count: q(48, 480)},
+			segment{Kind: "served-stream", Net: n, Count: q(8, 160)},
 		)
 	}
 	segs = append(segs, segment{Kind: "startup", Net: "history", Count: q(30, 90)}, segment{Kind: "startup", Net: "beacon", Count: q(10, 30)})
+	segs = append(segs, segment{Kind: "late-answers", Net: "history", Count: q(14, 140)})
 	segs = append(segs, segment{Kind: "wire-utp", Net: "history", Count: q(3000, 80000)})
 	if !mini {
 		segs = append(segs, segment{Kind: "slow-content", Net: "history", Count: q(6, 48)})
@@ -115,7 +117,7 @@ func main() {
 func parentRun(r *lib.Run) {
 	segs, total := caseList(r.Quick() || os.Getenv("VERIF_C01_RACE") == "1")
 	r.SetRule("cases = seed-determined list over {TALKREQ on each portal sub-protocol (direct handler call and over the in-memory discv5 link), the four TALKRESP kinds (direct response processors and over the wire as answers to the node's own requests), " +
-		"uTP stream bodies after a genuine ACCEPT, raw uTP packets on the utp channel, (content key, content) through ValidateContent and, when accepted, ContentStorage.Put, ContentStorage.Get for peer-chosen keys, the sub-protocol's JSON-RPC methods (TraceOffer, Offer, FindContent, FindNodes, Ping, the recursive lookups, AddEnr(s), GetEnr, LookupEnr, Store, LocalContent, Gossip, DeleteEnr) against a peer that answers with hostile bytes, well-formed requests from peers with established sessions sent back to back while a fresh node starts and stops, and stateful sequences that interleave store / look up / FINDCONTENT / OFFER / offered-stream steps around the genuine vectors and their numeric neighbours (followed by a probe that the network's content loop still consumes its queue)} x {history, beacon, state nodes with real storage adapters and validators}; " +
+		"uTP stream bodies after a genuine ACCEPT and uTP stream bodies served in answer to the node's own FINDCONTENT, raw uTP packets on the utp channel, (content key, content) through ValidateContent and, when accepted, ContentStorage.Put, ContentStorage.Get for peer-chosen keys, the sub-protocol's JSON-RPC methods (TraceOffer, Offer, FindContent, FindNodes, Ping, the recursive lookups, AddEnr(s), GetEnr, LookupEnr, Store, LocalContent, Gossip, DeleteEnr) against a peer that answers with hostile bytes, well-formed requests from peers with established sessions sent back to back while a fresh node starts and stops, content lookups whose peers answer well-formed but late (delays spread over the response timeout, one peer supplying the content), and stateful sequences that interleave store / look up / FINDCONTENT / OFFER / offered-stream steps around the genuine vectors and their numeric neighbours (followed by a probe that the network's content loop still consumes its queue)} x {history, beacon, state nodes with real storage adapters and validators}; " +
 		"inputs: valid messages, structure-aware mutations, boundary lengths 0/1/2, unknown codes/selectors, the full key matrix (type byte 0x00..0xff x lengths 0,1,2,8,9,10,32,33,34,41,42,64,65,2048), mutated genuine vectors. " +
 		"distinct_nontrivial = distinct (entry point, network, input) that reached the handler / processor / validator / adapter")
 	r.Assume("a crash is a Go panic or fatal error of the process while handling a logged case, or a recovered panic on the calling goroutine; a wedge is a handling call that has not returned after 45 s (the longest legitimate path is a 15 s uTP dial)")
